@@ -194,6 +194,11 @@ def directed_cases():
            "steps": [["C"], ["F", [], 0], ["F", [0], 0]], "envs": [e], "g": 0}
     yield {"adds": [], "kerns": [["go_offset_any", "go_cu", "go_internal_pts"], ["go_offset_ne", "go_cu", "go_internal_pts"]],
            "steps": [["F", [], 0], ["F", [0], 0], ["C"]], "envs": [e], "g": 0}
+    # one case per clause of GOceanLoopFuseTrans.validate (different grid-point type / iteration space / offset)
+    for k2 in (["go_offset_ne", "go_cv", "go_internal_pts"], ["go_offset_ne", "go_cu", "go_all_pts"],
+               ["go_offset_any", "go_cu", "go_internal_pts"], ["go_offset_ne", "go_cu", "go_internal_pts"]):
+        yield {"adds": [], "kerns": [["go_offset_ne", "go_cu", "go_internal_pts"], k2],
+               "steps": [["F", [], 0], ["F", [0], 0]], "envs": [henv_cached(0, 4, 3)], "g": 0}
     yield {"adds": [{"line": "go_offset_ne:go_ct:go_all_pts:{start}-1:{stop}+1:{start}:{stop}", "via": "api"}],
            "kerns": [["go_offset_ne", "go_ct", "go_all_pts"]], "steps": [], "envs": [e], "g": 0}
     yield {"adds": [{"line": "go_offset_sw:go_every:c25_space_0:{start}:{stop}:{start}:{stop}", "via": "config"}],
@@ -467,8 +472,8 @@ def run(chk):
             chk.correspondence_broken("translator and C25.parseBnd disagree on a bound string", s, o, want)
     if not ok:
         table_search(chk, table)
-    n_random = 1200 if chk.tier == "thorough" else 70
-    n_malformed = 250 if chk.tier == "thorough" else 20
+    n_random = 1200 if chk.tier == "thorough" else 45
+    n_malformed = 250 if chk.tier == "thorough" else 15
     cases = [fix_env_keys(c) for c in load_corpus()] + list(directed_cases()) + list(sweep_cases(chk.tier == "thorough"))
     stats["corpus+directed+sweep"] = len(cases)
     cases += [gen_case(chk.rng) for _ in range(n_random)]
